@@ -15,6 +15,10 @@ C12Cases ==
   {[kind |-> "msg", rule |-> r, pl |-> pl, sur |-> s] : r \in MessageRules, pl \in Placements, s \in Surrounds}
   \cup {[kind |-> "method", rule |-> r, pl |-> "top", sur |-> s] : r \in MethodRules, s \in Surrounds}
   \cup {[kind |-> "twin", rule |-> t, pl |-> "top", sur |-> "plain"] : t \in Twins}
+  \* "a definition that breaks none of the rules is accepted by all five plugins": the valid shapes and
+  \* single-field schemas of C13 are valid definitions too (a plugin that refuses one emits nothing C13 could build)
+  \cup {[kind |-> "c13x", rule |-> sh, pl |-> "shape", sur |-> "plain"] : sh \in C13Shapes}
+  \cup {[kind |-> "c13s", rule |-> t, pl |-> "single", sur |-> "plain"] : t \in C13Singles}
 
 \* (and every codec annotation on every cardinality it is accepted on - the single-field schemas of C13)
 C14Cases == {[kind |-> "c14", rule |-> t, pl |-> lay, sur |-> "plain"] : t \in CodecFeatures, lay \in Layouts}
